@@ -64,7 +64,8 @@ _EX = {
            'of every return / attribute write is compared with the Engine.IO v4 wire table; the '
            'encode cache is explored as a finite abstract state machine over all sequences of '
            'encode calls (fixpoint). '
-           'Also: the payload splitter hands every packet text to decode() unchanged, and the client WebSocket writers put binary packets (and only those) in binary frames.',
+           'Also: the payload splitter hands every packet text to decode() unchanged, and the client WebSocket writers put binary packets (and only those) in binary frames.'
+           ' Also (round 5): the constructor\'s json option rules under this property.',
     'C02': 'Provenance terms of Payload.encode for 0/1/2 packets; on every path of decode that '
            'builds packets the refusal guard must have the exact integer form over the number of '
            'parts of the very string that is split; self.packets is written all-or-nothing; the '
@@ -86,14 +87,16 @@ _EX = {
            'packet in order, closed-test before every dispatch; WebSocket loop: one dispatch per '
            'frame, unknown types ignored; protocol errors routed to 400 + session end. '
            'Also: an EngineIOError subclass raised by the session handlers is taken by the protocol-error clause and by no earlier clause (exception classes may have several bases); the packet decode table; ASGI body assembly. '
-           'Also: every asyncio driver maps the request to a CGI-style environ (Content-Length / Content-Type / HTTP_*), runs the handler it was built with and hands received frames on.',
+           'Also: every asyncio driver maps the request to a CGI-style environ (Content-Length / Content-Type / HTTP_*), runs the handler it was built with and hands received frames on.'
+           ' Also (round 5): the ASGI wait() returns the field of the receive event that is set (value test, not key presence).',
     'C05': 'ONCE(disconnect) in close(): guard on closed/closing, closing=True before the handler, '
            'nothing between test and set, flags monotone; reasons per close site; nothing is '
            'dispatched to a closed session (POST loop and WebSocket loop); handler exceptions are '
            'contained by a catch-all around every handler call (connect: reject); the connect '
            'event fires once after the session is stored and OPEN queued; reject path removes the '
            'entry and serves nothing. '
-           'Also: the tornado driver queues its close marker into an unbounded queue.',
+           'Also: the tornado driver queues its close marker into an unbounded queue.'
+           ' Also (round 5): the five disconnect reasons are the documented, pairwise different texts; asyncio: no coroutine method of server/session is called without await; the ASGI close() swallows OSError and RuntimeError of the send.',
     'C06': 'Every path that sets upgraded=True on a connected session carries wait -> PING probe '
            '-> send PONG probe -> queue NOOP -> wait -> UPGRADE in order; EXIT-STATE: on every '
            'exit (normal or explicit-raise) of the upgrade request region (_upgrade_websocket + '
@@ -101,7 +104,8 @@ _EX = {
            'session refuses re-upgrade before a driver object exists; direct WebSocket sessions '
            'are upgraded before any I/O; the upgrade protocol must be a configured transport. '
            'Also: no EngineIOError (sub)class leaves the handshake (handle_request would end the polling session for it), with per-flavour driver raise summaries; without a driver the upgrade is refused with 400 and no effect. '
-           'Also: a driver WebSocket object runs the handler it was built with.',
+           'Also: a driver WebSocket object runs the handler it was built with.'
+           ' Also (round 5): upgraded=True is written before upgrading=False (asyncio: only an await in between counts); the advertised-upgrades rule under this property.',
     'C07': 'Wiring and bounds, not timing: schedule_ping starts one _send_ping; _send_ping clears '
            'last_ping, sleeps exactly ping_interval, then on every path with the session neither '
            'closing nor closed stamps last_ping and sends PING; check_ping_timeout closes iff '
@@ -109,7 +113,8 @@ _EX = {
            'wait=False, abort=False; send() evaluates it before enqueuing; poll waits at most '
            'ping_interval + ping_timeout. '
            'Also: last_ping is written only by the constructor and _send_ping; the session queue is created without a size (put() never blocks the monitor); a monitor pass is not left early except on the stop signal. '
-           'Also: the monitor idles exactly when the table is empty and is started by default; the packet-count gate (C02) under this property.',
+           'Also: the monitor idles exactly when the table is empty and is started by default; the packet-count gate (C02) under this property.'
+           ' Also (round 5): the constructor stores ping_timeout as given; WHO-MAY call schedule_ping: _handle_connect and receive (through any chain of new helpers).',
     'C08': 'connect() always starts with a fresh queue; failed connects raise ConnectionError '
            'before state/registration change; success adopts the announced values, fires connect '
            'once, starts the loops; disconnect(): one event after the state left "connected", '
@@ -117,7 +122,8 @@ _EX = {
            'before the event, unregister + reset, every failure break preceded by put(None); read '
            'timeouts bounded by the announced timing. '
            'Also: _reset() unconditionally sets state/sid first and clears nothing that connect() reads after the handshake packets / connect handler ran; response bodies are decoded under the invalid-response handler; handler calls of _trigger_event are contained and the legacy disconnect retry has the client arity. '
-           'Also: 2xx gates of the polling responses as integer forms, loop conditions, write-loop sentinel, create_queue/_send_request return values, transports normalisation, a closed HTTP session is replaced.',
+           'Also: 2xx gates of the polling responses as integer forms, loop conditions, write-loop sentinel, create_queue/_send_request return values, transports normalisation, a closed HTTP session is replaced.'
+           ' Also (round 5): the payload decoder rules (every record decoded, none filtered) under this property.',
     'C09': 'Dispatch table of _receive_packet over types 0..9 (PONG echoes pkt.data, MESSAGE one '
            'background event, CLOSE -> server disconnect, total on 0..9); write loop: dequeue '
            'order, no re-queue, polling batch as one payload, binary frames iff pkt.binary, batch '
@@ -136,7 +142,8 @@ _EX = {
            'reject -> entry deleted + 401 with the handler value; _upgrades advertises websocket '
            'only under every condition under which an upgrade would be accepted; handler '
            'exceptions (also BaseException) reject the connection. '
-           'Also: _ok keeps the headers its caller built (the handshake cookie); only task cancellation is swallowed without a verdict in _trigger_event; the upgrade-header test of the session GET handler.',
+           'Also: _ok keeps the headers its caller built (the handshake cookie); only task cancellation is swallowed without a verdict in _trigger_event; the upgrade-header test of the session GET handler.'
+           ' Also (round 5): the ASGI close reason is the rejection payload as text, unsliced; id generator rules under this property.',
     'C12': 'Every path of handle_request to a sink (_handle_connect, handle_get_request, '
            'handle_post_request) must carry the full set of admission guards in normalised form '
            '(transport allowed, EIO == [\'4\'] when opening, method, sid present/absent, sid in '
@@ -171,12 +178,14 @@ _EX = {
            'and queue per socket, no class-level containers; reaping sites (lookup, after GET, '
            'WebSocket end, sweep, reject, disconnect); sweep visits a copy, checks every live '
            'session, paced by ping_timeout / n. '
-           'Also: session queue unbounded; monitor pass not cut short.',
+           'Also: session queue unbounded; monitor pass not cut short.'
+           ' Also (round 5): asyncio poll() turns TimeoutError and CancelledError of the blocking read into QueueEmpty; the ASGI close() is total.',
     'C17': 'generate_id matched against encode(random(n) || counter(k bytes, big-endian)); closed '
            'arithmetic obligations over the extracted constants: CSPRNG source on every call, 8n '
            '>= 96, counter update (c+1) & m with m = 2^(8k)-1 (full period 2^24), concatenation + '
            'injective fixed-length base64 without padding = 20 chars, url-safe replacements, '
-           'per-instance counter, every table key comes from generate_id().',
+           'per-instance counter, every table key comes from generate_id().'
+           ' Also (round 5): sequence_number is a plain attribute (no property / descriptor in the server classes); _handle_connect rules under this property.',
     'C18': 'SIBLING: normalised fact sets (guard atoms, effect calls, attribute writes, raises, '
            'returns, definitions of request attributes) of 22 sibling function pairs are diffed '
            'modulo the async normalisation; every remaining difference must be a reviewed entry '
@@ -195,7 +204,8 @@ _EX = {
            'return; static files: the request-derived suffix reaches the filename only after a '
            'recognised ..-segment sanitizer; content type from mapping, extension, default. '
            'Also: the middleware does not rewrite the request mapping; endpoint normalisation decided by constant folding over eight representative spellings (root endpoint included); lifespan callbacks sit under a catch-all. '
-           'Also: the request-derived remainder is appended to the mapped root (no path-joining API); the existence test is made per request (no memoised helper).',
+           'Also: the request-derived remainder is appended to the mapped root (no path-joining API); the existence test is made per request (no memoised helper).'
+           ' Also (round 5): what is appended to the mapped root is the very term tested for \'..\' (no decoding after the test).',
 }
 
 
